@@ -112,3 +112,40 @@ def c06(run, scratch):
                                     "emit bounds is replayed into the real iterator; generated/corpus inputs are sampled")
     run.assumptions += ["TLC + Json module", "harness records what iter() yields (enc.rs, canary-checked)",
                         "L4 is read on Ok records and non-blank error lines (see StreamLaws.tla)"]
+
+
+# ---------------------------------------------------------------------------------------------
+# C19 file-level metadata equals a fold over the record stream
+# ---------------------------------------------------------------------------------------------
+def _meta_corrupt(ev):
+    ev["got"]["is_valid"] = not ev["got"]["is_valid"]
+    return ev
+
+
+@prop("C19")
+def c19(run, scratch):
+    thorough = run.tier == "thorough"
+    r = run_tlc(scratch, "MC_Meta", cfg="MC_Meta_machines_thorough.cfg" if thorough else "MC_Meta_machines.cfg",
+                workers=14 if thorough else 10, timeout=3000)
+    if r.violation:
+        run.violation("MC_Meta_machines", {"signature": {"step": "MC_Meta_machines"}, "tlc": r.violation,
+                                           "output": r.out[-5000:]})
+    run.add_tlc("MC_Meta_machines", r, note="scanning machines = folds, all abstract streams within bound, Window=3")
+    cases = tlc_cases(run, scratch, "MC_Meta_gen", "MC_Meta",
+                      cfg="MC_Meta_gen_thorough.cfg" if thorough else "MC_Meta_gen.cfg",
+                      workers=14 if thorough else 10, timeout=3000)
+    if cases:
+        c = cases[len(cases) // 2]
+        run.sample({"src_tail": b2s(c["src"])[-160:], "spec_expects": c["want"]})
+        replay_cases(run, scratch, "MC_Meta_gen", cases, "meta")
+    files = SMALL_CORPUS + (BIG_CORPUS if thorough else [])
+    events = harness_trace(scratch, "meta", "meta", ["--seed", run.seed, "--n", 1500 if thorough else 250,
+                                                      "--files", ",".join(files)])
+    run.sample({"trace_event": {"n_items": len(events[0]["items"]), "got": events[0]["got"]}})
+    validate_pure_trace(run, scratch, "Trace_Meta", "Trace_Meta", events, workers=14 if thorough else 10,
+                        timeout=3000, corrupt=_meta_corrupt,
+                        signature=lambda ev: {"n_items": len(ev["items"])})
+    run.exhaustive = False
+    run.assumptions += ["TLC + Json module", "item abstraction (kind, line-mapping presence, header key/value) is recorded "
+                        "faithfully by the harness; parser questions belong to C05/C06"]
+REPLAYERS["MC_Meta_gen"] = lambda run, scratch, rec: replay_cases(run, scratch, "MC_Meta_gen", [rec["case"]], "meta")
